@@ -280,6 +280,278 @@ fn run_flat(bytes: &[u8], ctx: &Ctx) -> CaseInfo {
     eval(&p, &mut s, ctx)
 }
 
+// ---------------------------------------------------------------------------------------------
+// scale family: flat conjunctions with MANY disequalities alive in the store at once
+// ---------------------------------------------------------------------------------------------
+
+fn flat_atoms(p: &Program) -> Vec<Goal> {
+    let mut at = vec![];
+    p.body.iter().for_each(|g| atoms(g, &mut at));
+    at
+}
+
+fn formula_holds(at: &[Goal], g: &[Term]) -> bool {
+    at.iter().all(|a| match a {
+        Goal::Eq(l, r) => subst_ground(l, g) == subst_ground(r, g),
+        Goal::Diseq(l, r) => subst_ground(l, g) != subst_ground(r, g),
+        Goal::Fail => false,
+        _ => true,
+    })
+}
+
+fn decode_scale(s: &mut Source, thorough: bool) -> Program {
+    use crate::gen::scale;
+    let nq = 2 + s.below(5);
+    let n = scale::size(s, scale::cap(thorough));
+    let var = |s: &mut Source| Term::Var(s.below(nq) as VarId);
+    let two_vars = |s: &mut Source| {
+        let a = s.below(nq);
+        let b = (a + 1 + s.below(nq - 1)) % nq;
+        (Term::Var(a as VarId), Term::Var(b as VarId))
+    };
+    // filler: `x != k` with distinct constants; the variable cycles unless decorated
+    let mut body: Vec<Goal> = (0..n).map(|i| Goal::Diseq(Term::Var((i % nq) as VarId), Term::Int(10 + i as i64))).collect();
+    // special disequalities at chosen positions
+    let mut weak: Vec<(usize, Term, Term, Term, Term)> = vec![];
+    let nspecial = s.below(7);
+    for _ in 0..nspecial {
+        let pos = s.below(n);
+        body[pos] = match s.weighted(&[3, 3, 2, 2]) {
+            0 => {
+                let (a, b) = two_vars(s);
+                Goal::Diseq(a, b)
+            }
+            1 => {
+                let (a, b) = two_vars(s);
+                let (c, d) = (Term::Int(s.below(4) as i64), Term::Int(s.below(4) as i64));
+                weak.push((pos, a.clone(), b.clone(), c.clone(), d.clone()));
+                if s.flag(128) {
+                    Goal::Diseq(Term::list(vec![a, b]), Term::list(vec![c, d]))
+                } else {
+                    Goal::Diseq(Term::list(vec![c, d]), Term::list(vec![a, b]))
+                }
+            }
+            2 => {
+                let (a, b) = two_vars(s);
+                Goal::Diseq(a, Term::list(vec![Term::Int(s.below(4) as i64), b]))
+            }
+            _ => Goal::Diseq(var(s), Term::Int(s.below(4) as i64)),
+        };
+    }
+    // events are (position, goal) pairs inserted afterwards, from the back so positions hold
+    let mut events: Vec<(usize, Goal)> = vec![];
+    let place = |s: &mut Source, after: usize, n: usize| -> usize {
+        // mostly at the very end, sometimes right after the constraint, sometimes anywhere
+        match s.weighted(&[5, 2, 2]) {
+            0 => n,
+            1 => after + 1,
+            _ => s.below(n + 1),
+        }
+    };
+    // subsumption: a stronger constraint for a stored weak one
+    for (pos, a, b, c, d) in weak.iter() {
+        if s.flag(150) {
+            let strong = if s.flag(160) { Goal::Diseq(a.clone(), c.clone()) } else { Goal::Diseq(b.clone(), d.clone()) };
+            let at = place(s, *pos, n);
+            events.push((at, strong));
+        }
+    }
+    // deciding bindings aimed at a stored constraint
+    let ndecide = s.below(4);
+    for _ in 0..ndecide {
+        let d = s.below(n);
+        let (l, r) = match &body[d] {
+            Goal::Diseq(l, r) => (l.clone(), r.clone()),
+            _ => continue,
+        };
+        let at = place(s, d, n);
+        match (&l, &r) {
+            (Term::Var(_), _) | (_, Term::Var(_)) => {
+                let (x, t) = if l.is_var() { (l.clone(), r.clone()) } else { (r.clone(), l.clone()) };
+                match s.weighted(&[2, 2, 1, 5]) {
+                    0 => events.push((at, Goal::Eq(x, t))),
+                    1 => events.push((at, Goal::Eq(t, x))),
+                    2 => {
+                        // through an intermediate variable
+                        let w = var(s);
+                        events.push((at, Goal::Eq(w.clone(), t)));
+                        events.push((at, Goal::Eq(x, w)));
+                    }
+                    _ => events.push((at, Goal::Eq(x, Term::Int(50_000 + d as i64)))),
+                }
+            }
+            _ => {
+                // list-shaped: bind component-wise, completely or partially
+                let (ls, _) = l.uncons_all();
+                let (rs, _) = r.uncons_all();
+                let full = s.flag(90);
+                for (k, (a, b)) in ls.iter().zip(rs.iter()).enumerate() {
+                    if full || k == 0 {
+                        let g = if s.flag(128) { Goal::Eq((*a).clone(), (*b).clone()) } else { Goal::Eq((*b).clone(), (*a).clone()) };
+                        events.push((at, g));
+                    }
+                }
+            }
+        }
+    }
+    events.sort_by_key(|e| std::cmp::Reverse(e.0));
+    for (at, g) in events {
+        body.insert(at.min(body.len()), g);
+    }
+    Program { nq, body }
+}
+
+fn eval_scale(p: &Program, s: &mut Source, ctx: &Ctx) -> CaseInfo {
+    use crate::model::unify::{unify, Subst};
+    let mut info = CaseInfo::default();
+    let desc = p.show();
+    info.key = hash_str(&desc);
+    let at = flat_atoms(p);
+    let ndis = at.iter().filter(|a| matches!(a, Goal::Diseq(..))).count();
+    info.class(if ndis >= 256 { "diseqs>=256" } else if ndis >= 64 { "diseqs>=64" } else if ndis >= 16 { "diseqs>=16" } else { "diseqs<16" });
+    // reference: mgu of the equations, then no disequality may be identical under it
+    let mut mgu = Some(Subst::new());
+    for a in &at {
+        if let (Goal::Eq(l, r), Some(m)) = (a, &mgu) {
+            mgu = unify(m, l, r);
+        }
+    }
+    let fresh = |v: VarId| Term::Int(100_000 + v as i64);
+    let fill = |m: &Subst| -> Vec<Term> { (0..p.nq).map(|i| m.apply(&Term::Var(i as VarId)).map_vars(&mut |v| fresh(v))).collect() };
+    let satisfiable = match &mgu {
+        None => false,
+        Some(m) => at.iter().all(|a| match a {
+            Goal::Diseq(l, r) => m.apply(l) != m.apply(r),
+            _ => true,
+        }),
+    };
+    let out = oracle::run_all(p, Mode::Bfs);
+    if ctx.want_sample {
+        let short: String = desc.chars().take(400).collect();
+        info.sample = Some(json!({ "program (first 400 chars)": short, "disequalities": ndis, "satisfiable": satisfiable, "answers": out.answers.len() }));
+    }
+    if let run::End::Panic(pi) = &out.end {
+        info.fail(format!("C02:panic:{}", pi.key()), format!("{}\n  panicked: {} at {}", desc, pi.message, pi.location));
+        return info;
+    }
+    if !out.complete() {
+        return CaseInfo { skip: Some("impl-incomplete"), ..info };
+    }
+    info.nontrivial = ndis >= 9 && at.iter().any(|a| matches!(a, Goal::Eq(..)));
+    info.class(if satisfiable { "satisfiable" } else { "unsatisfiable" });
+    if out.answers.len() != satisfiable as usize {
+        info.fail(
+            if satisfiable { "C02:scale:satisfiable-program-has-no-answer" } else { "C02:scale:unsatisfiable-program-has-an-answer" },
+            format!("{}\n  answers {} but the conjunction is {}", desc, run::show_answers(&out.answers), if satisfiable { "satisfiable" } else { "unsatisfiable" }),
+        );
+        return info;
+    }
+    let m = match (&mgu, satisfiable) {
+        (Some(m), true) => m.clone(),
+        _ => return info,
+    };
+    let ans = &out.answers[0];
+    let u = Universe(vec![Term::Int(200_001), Term::Int(200_002), Term::Nil]);
+    // every stored disequality must still be visible in the answer: the tuple that violates it
+    // (and satisfies all equations) must not be an instance of the answer
+    let dis: Vec<(usize, &Term, &Term)> = at.iter().enumerate().filter_map(|(i, a)| if let Goal::Diseq(l, r) = a { Some((i, l, r)) } else { None }).collect();
+    let mut violating: Vec<(usize, Vec<Term>)> = vec![];
+    for (i, l, r) in &dis {
+        if let Some(m2) = unify(&m, l, r) {
+            let g = fill(&m2);
+            debug_assert!(!formula_holds(&at, &g));
+            if canon::instance_of(&g, ans, &u) == Some(true) {
+                let gs: Vec<String> = g.iter().map(|t| crate::ast::show_term(t, 0)).collect();
+                info.fail(
+                    "C02:scale:answer-instance-violates-a-posted-disequality",
+                    format!("{}\n  answer {}\n  the ground tuple {:?} violates atom #{} ({}) but is an instance of the answer", desc, run::show_answers(&out.answers), gs, i, crate::ast::show_goal(&at[*i], p.nq)),
+                );
+                return info;
+            }
+            violating.push((*i, g));
+        }
+    }
+    // the generic solution must be an instance
+    let g0 = fill(&m);
+    let f0 = formula_holds(&at, &g0);
+    if canon::instance_of(&g0, ans, &u) == Some(!f0) {
+        let gs: Vec<String> = g0.iter().map(|t| crate::ast::show_term(t, 0)).collect();
+        info.fail("C02:scale:generic-solution-not-covered", format!("{}\n  answer {}\n  ground tuple {:?}: formula = {}", desc, run::show_answers(&out.answers), gs, f0));
+        return info;
+    }
+    // run the program extended with q == g for a few of those tuples, and under a permutation
+    let q = oracle::permuted(p, s, false);
+    let outq = oracle::run_all(&q, Mode::Bfs);
+    if let run::End::Panic(pi) = &outq.end {
+        info.fail(format!("C02:panic:{}", pi.key()), format!("{}\n  panicked: {} at {}", q.show(), pi.message, pi.location));
+        return info;
+    }
+    if outq.complete() {
+        info.class("permuted");
+        if outq.answers.len() != 1 {
+            info.fail("C02:scale:order-dependent", format!("{}\n  has one answer, but permuted\n{}\n  has {}", desc, q.show(), outq.answers.len()));
+            return info;
+        }
+        for (i, g) in &violating {
+            if canon::instance_of(g, &outq.answers[0], &u) == Some(true) {
+                info.fail(
+                    "C02:scale:order-dependent",
+                    format!("{}\n  permuted: {}\n  answer {}\n  accepts a tuple violating atom #{} ({}) of the original", desc, q.show(), run::show_answers(&outq.answers), i, crate::ast::show_goal(&at[*i], p.nq)),
+                );
+                return info;
+            }
+        }
+    }
+    let mut tuples: Vec<(Vec<Term>, bool)> = vec![(g0, f0)];
+    let nt = if ctx.tier == Tier::Thorough { 4 } else { 2 };
+    for _ in 0..nt {
+        if !violating.is_empty() {
+            let k = s.below(violating.len());
+            tuples.push((violating[k].1.clone(), false));
+        }
+    }
+    for (k, (g, want)) in tuples.into_iter().enumerate() {
+        for prog in [p, &q] {
+            if ctx.tier == Tier::Quick && (k % 2 == 0) == std::ptr::eq(prog, &q) {
+                // quick tier: alternate between the original and the permuted program
+                continue;
+            }
+            let mut body = prog.body.clone();
+            let eq = Goal::Eq(Term::list((0..p.nq).map(|i| Term::Var(i as VarId)).collect()), Term::list(g.clone()));
+            // the grounding goes last or first
+            if s.flag(80) {
+                body.insert(0, eq);
+            } else {
+                body.push(eq);
+            }
+            let p2 = Program { nq: p.nq, body };
+            let out2 = run::run(&p2, Mode::Bfs, Limits::all());
+            if !out2.complete() {
+                continue;
+            }
+            let has = !out2.answers.is_empty();
+            if has != want {
+                let gs: Vec<String> = g.iter().map(|t| crate::ast::show_term(t, 0)).collect();
+                info.fail(
+                    if has { "C02:ground-tuple-accepted-but-not-a-solution" } else { "C02:ground-solution-rejected" },
+                    format!("{}\n  with q == {:?}: implementation has answer = {}, the ground formula is {}", p2.show(), gs, has, want),
+                );
+                return info;
+            }
+        }
+    }
+    info
+}
+
+fn run_scale(bytes: &[u8], ctx: &Ctx) -> CaseInfo {
+    let mut s = Source::new(bytes);
+    let p = decode_scale(&mut s, ctx.tier == Tier::Thorough);
+    if std::env::var("PVH_SHOW").is_ok() {
+        eprintln!("SHOW {}", p.show());
+    }
+    eval_scale(&p, &mut s, ctx)
+}
+
 fn fixed_example(ctx: &Ctx) -> CaseInfo {
     // the example of the property text
     let (x, y) = (Term::Var(0), Term::Var(1));
@@ -314,7 +586,7 @@ fn fixed_example_rev(ctx: &Ctx) -> CaseInfo {
 pub fn def() -> PropertyDef {
     PropertyDef {
         id: "C02",
-        rule: "pure tree programs (1-3 query variables, <=2 fresh variables, <=6 atoms from ==/!= over ints 0..3, proper/improper lists and Pair, nested conde/conjunction/fresh, plus a motif posting `x != c` and `[x,y] != [c,d]` in both orders followed by deciding bindings). Oracles: (A) multiset of answers equals the reference interpreter's (un-normalised disequalities; constraint sets compared on solved forms, else by enumerating assignments over a finite universe with more fresh atoms than disequalities), (B) for 6 ground tuples per case: `P, q == g` has an answer <=> reference holds(P,g) <=> g is an instance of some answer, (C) 4 random permutations of every conjunction give the same multiset, (D) for fresh-free disjunction-free programs: brute-force evaluation of the program as a ground formula over U^n (U closed under sub-terms) equals the union of the answers' instance sets. Non-trivial = program has both == and != and a disequality survives into an answer or kills a path; distinct = hash of the printed program",
+        rule: "pure tree programs (1-3 query variables, <=2 fresh variables, <=6 atoms from ==/!= over ints 0..3, proper/improper lists and Pair, nested conde/conjunction/fresh, plus a motif posting `x != c` and `[x,y] != [c,d]` in both orders followed by deciding bindings). Oracles: (A) multiset of answers equals the reference interpreter's (un-normalised disequalities; constraint sets compared on solved forms, else by enumerating assignments over a finite universe with more fresh atoms than disequalities), (B) for 6 ground tuples per case: `P, q == g` has an answer <=> reference holds(P,g) <=> g is an instance of some answer, (C) 4 random permutations of every conjunction give the same multiset, (D) for fresh-free disjunction-free programs: brute-force evaluation of the program as a ground formula over U^n (U closed under sub-terms) equals the union of the answers' instance sets. Non-trivial = program has both == and != and a disequality survives into an answer or kills a path; distinct = hash of the printed program. Family `scale`: flat conjunctions over 2-6 variables with up to 400 (thorough 2000) disequalities alive at once (x != k, x != y, [x,y] != [c,d], x != [c|y]), subsumption events and deciding equalities aimed at one stored constraint; judged without the interpreter: satisfiable iff the mgu of the equations makes no disequality identical; for EVERY disequality the tuple that violates it (and satisfies the equations) must not be an instance of the answer; the generic solution must be; the same under a permutation and for `P, q == g` runs (non-trivial there: >= 9 disequalities and an equation)",
         assumptions: vec![
             "reference interpreter (model/interp.rs) and unifier are correct; oracle (D) uses neither",
             "instance comparison is complete only relative to the finite universe, which always contains every program constant and more fresh atoms than there are disequalities",
@@ -322,6 +594,7 @@ pub fn def() -> PropertyDef {
         families: vec![
             Family { name: "tree", max_len: 160, quick: 60_000, thorough: 1_500_000, run: run_tree },
             Family { name: "flat", max_len: 120, quick: 40_000, thorough: 1_000_000, run: run_flat },
+            Family { name: "scale", max_len: 96, quick: 8_000, thorough: 300_000, run: run_scale },
         ],
         fixed: vec![Fixed { name: "property-text-example", run: fixed_example }, Fixed { name: "property-text-example-reordered", run: fixed_example_rev }],
         witnesses: vec![],
